@@ -408,3 +408,244 @@ theorem expr_step (sv : Semver) (fuel : Nat) (s : Bytes) :
   rw [parseMarkerExpr]; rfl
 
 end DepsDev.Proofs.C16MarkerRender
+
+namespace DepsDev.Proofs.C16MarkerRender
+open DepsDev DepsDev.Pypi DepsDev.Ref.Pep508 DepsDev.Proofs.C16Bytes DepsDev.Proofs.C16Marker
+
+def size : Ref.Pep508.Marker → Nat
+  | .cmp .. => 1
+  | .paren _ m _ => size m + 1
+  | .and l _ r => size l + size r + 1
+  | .or l _ r => size l + size r + 1
+
+theorem size_pos (m : Ref.Pep508.Marker) : 1 ≤ size m := by cases m <;> simp [size]
+
+/-- What follows is not the keyword `and` / `or` (after optional blanks). -/
+def NoAnd (rest : Bytes) : Prop := accept [97, 110, 100] (skipWsp rest) = none
+def NoOr (rest : Bytes) : Prop := accept [111, 114] (skipWsp rest) = none
+
+theorem accept_cons_ne (a : UInt8) (lit : Bytes) (c : UInt8) (cs : Bytes) (h : (a == c) = false) :
+    accept (a :: lit) (c :: cs) = none := by
+  simp [accept, List.isPrefixOf, h]
+
+theorem noKw_ws_cons (w : Ws) (c : UInt8) (cs : Bytes) (hws : isWs c = false)
+    (ha : ((97 : UInt8) == c) = false) (ho : ((111 : UInt8) == c) = false) :
+    NoAnd (w.bytes ++ c :: cs) ∧ NoOr (w.bytes ++ c :: cs) := by
+  unfold NoAnd NoOr
+  rw [skipWsp_ws_append, skipWsp_cons _ hws]
+  exact ⟨accept_cons_ne _ _ _ _ ha, accept_cons_ne _ _ _ _ ho⟩
+
+theorem noAnd_ws_cons (w : Ws) (c : UInt8) (cs : Bytes) (hws : isWs c = false)
+    (ha : ((97 : UInt8) == c) = false) : NoAnd (w.bytes ++ c :: cs) := by
+  unfold NoAnd
+  rw [skipWsp_ws_append, skipWsp_cons _ hws]
+  exact accept_cons_ne _ _ _ _ ha
+
+theorem noKw_ws (w : Ws) : NoAnd w.bytes ∧ NoOr w.bytes := by
+  unfold NoAnd NoOr
+  rw [skipWsp_ws]
+  exact ⟨rfl, rfl⟩
+
+@[simp] theorem fbind_ok {α β} (a : α) (f : α → Fuelled β) : (Fuelled.done (.ok a)).bind f = f a := rfl
+@[simp] theorem fbind_err {α β} (f : α → Fuelled β) : (Fuelled.done (.err : Outcome α)).bind f = .done .err := rfl
+@[simp] theorem fbind_panic {α β} (p : String) (f : α → Fuelled β) :
+    (Fuelled.done (.panic p : Outcome α)).bind f = .done (.panic p) := rfl
+
+theorem and_of_expr (sv : Semver) (m : Ref.Pep508.Marker) (fuel : Nat) (rest : Bytes)
+    (hE : parseMarkerExpr sv fuel (m.render ++ rest) = .done (ret (toModel sv m) rest)) (hna : NoAnd rest) :
+    parseMarkerAnd sv (fuel + 1) (m.render ++ rest) = .done (ret (toModel sv m) (skipWsp rest)) := by
+  rw [and_step, hE]
+  cases toModel sv m with
+  | ok M => simp only [ret, Outcome.bind, fbind_ok]; rw [show accept [97, 110, 100] (skipWsp rest) = none from hna]
+  | err => rfl
+  | panic p => rfl
+
+theorem or_of_and (sv : Semver) (m : Ref.Pep508.Marker) (fuel : Nat) (rest : Bytes)
+    (hA : parseMarkerAnd sv fuel (m.render ++ rest) = .done (ret (toModel sv m) (skipWsp rest))) (hno : NoOr rest) :
+    parseMarkerOr sv (fuel + 1) (m.render ++ rest) = .done (ret (toModel sv m) (skipWsp rest)) := by
+  rw [or_step, hA]
+  cases toModel sv m with
+  | ok M =>
+    simp only [ret, Outcome.bind, fbind_ok, skipWsp_idem]
+    rw [show accept [111, 114] (skipWsp rest) = none from hno]
+  | err => rfl
+  | panic p => rfl
+
+/-- The three parsers on a rendered tree, with any continuation that cannot be mistaken for
+a keyword, and any sufficient fuel. -/
+theorem parse_render (sv : Semver) : ∀ m : Ref.Pep508.Marker, m.wf = true →
+    (m.level = 0 → ∀ fuel rest, 3 * size m ≤ fuel + 2 →
+      parseMarkerExpr sv fuel (m.render ++ rest) = .done (ret (toModel sv m) rest)) ∧
+    (m.level ≤ 1 → ∀ fuel rest, 3 * size m ≤ fuel + 1 → NoAnd rest →
+      parseMarkerAnd sv fuel (m.render ++ rest) = .done (ret (toModel sv m) (skipWsp rest))) ∧
+    (∀ fuel rest, 3 * size m ≤ fuel → NoAnd rest → NoOr rest →
+      parseMarkerOr sv fuel (m.render ++ rest) = .done (ret (toModel sv m) (skipWsp rest))) := by
+  intro m
+  -- generic derivations of the outer levels from the inner ones
+  have derive_and : ∀ m : Ref.Pep508.Marker,
+      (∀ fuel rest, 3 * size m ≤ fuel + 2 →
+        parseMarkerExpr sv fuel (m.render ++ rest) = .done (ret (toModel sv m) rest)) →
+      ∀ fuel rest, 3 * size m ≤ fuel + 1 → NoAnd rest →
+        parseMarkerAnd sv fuel (m.render ++ rest) = .done (ret (toModel sv m) (skipWsp rest)) := by
+    intro m hE fuel rest hf hna
+    have := size_pos m
+    obtain ⟨f, rfl⟩ : ∃ f, fuel = f + 1 := ⟨fuel - 1, by omega⟩
+    exact and_of_expr sv m f rest (hE f rest (by omega)) hna
+  have derive_or : ∀ m : Ref.Pep508.Marker,
+      (∀ fuel rest, 3 * size m ≤ fuel + 1 → NoAnd rest →
+        parseMarkerAnd sv fuel (m.render ++ rest) = .done (ret (toModel sv m) (skipWsp rest))) →
+      ∀ fuel rest, 3 * size m ≤ fuel → NoAnd rest → NoOr rest →
+        parseMarkerOr sv fuel (m.render ++ rest) = .done (ret (toModel sv m) (skipWsp rest)) := by
+    intro m hA fuel rest hf hna hno
+    have := size_pos m
+    obtain ⟨f, rfl⟩ : ∃ f, fuel = f + 1 := ⟨fuel - 1, by omega⟩
+    exact or_of_and sv m f rest (hA f rest (by omega) hna) hno
+  induction m with
+  | cmp w0 l w1 op wNot w2 r =>
+    intro h
+    have hl : l.wf = true := by
+      simp only [Ref.Pep508.Marker.wf, Bool.and_eq_true] at h; exact h.1.1
+    have hE : ∀ fuel rest, 3 * size (.cmp w0 l w1 op wNot w2 r) ≤ fuel + 2 →
+        parseMarkerExpr sv fuel ((Ref.Pep508.Marker.cmp w0 l w1 op wNot w2 r).render ++ rest) =
+          .done (ret (toModel sv (.cmp w0 l w1 op wNot w2 r)) rest) := by
+      intro fuel rest hf
+      obtain ⟨f, rfl⟩ : ∃ f, fuel = f + 1 := ⟨fuel - 1, by simp [size] at hf; omega⟩
+      obtain ⟨h1, h2⟩ := cmp_render_head w0 l w1 op wNot w2 r rest hl
+      rw [expr_step, h1, h2]
+      simp only []
+      rw [parseLeaf_render sv w0 l w1 op wNot w2 r rest h]
+    have hA := derive_and _ hE
+    exact ⟨fun _ => hE, fun _ => hA, derive_or _ hA⟩
+  | paren w0 m w1 ih =>
+    intro h
+    have hm : m.wf = true := by simpa [Ref.Pep508.Marker.wf] using h
+    obtain ⟨_, _, ihO⟩ := ih hm
+    have hE : ∀ fuel rest, 3 * size (.paren w0 m w1) ≤ fuel + 2 →
+        parseMarkerExpr sv fuel ((Ref.Pep508.Marker.paren w0 m w1).render ++ rest) =
+          .done (ret (toModel sv (.paren w0 m w1)) rest) := by
+      intro fuel rest hf
+      obtain ⟨f, rfl⟩ : ∃ f, fuel = f + 1 := ⟨fuel - 1, by simp [size] at hf; omega⟩
+      have hf' : 3 * size m ≤ f := by simp [size] at hf; omega
+      have hs : skipWsp ((Ref.Pep508.Marker.paren w0 m w1).render ++ rest) =
+          40 :: (m.render ++ (w1.bytes ++ 41 :: rest)) := by
+        simp only [Ref.Pep508.Marker.render, List.append_assoc, List.cons_append, List.nil_append]
+        rw [skipWsp_ws_append, skipWsp_cons _ (by decide)]
+      obtain ⟨hna, hno⟩ := noKw_ws_cons w1 41 rest (by decide) (by decide) (by decide)
+      have hrec := ihO f (w1.bytes ++ 41 :: rest) hf' hna hno
+      have hsk : skipWsp (w1.bytes ++ 41 :: rest) = 41 :: rest := by
+        rw [skipWsp_ws_append, skipWsp_cons _ (by decide)]
+      rw [expr_step, hs]
+      have hacc : accept [40] (40 :: (m.render ++ (w1.bytes ++ 41 :: rest))) = some (m.render ++ (w1.bytes ++ 41 :: rest)) :=
+        accept_self [40] _
+      rw [hacc]
+      simp only []
+      rw [hrec, hsk]
+      simp only [toModel]
+      cases toModel sv m with
+      | ok M =>
+        simp only [ret, Outcome.bind, fbind_ok]
+        rw [show accept [41] (41 :: rest) = some rest from accept_self [41] rest]
+      | err => rfl
+      | panic p => rfl
+    have hA := derive_and _ hE
+    exact ⟨fun _ => hE, fun _ => hA, derive_or _ hA⟩
+  | and l w r ihl ihr =>
+    intro h
+    simp only [Ref.Pep508.Marker.wf, Bool.and_eq_true, beq_iff_eq, decide_eq_true_eq] at h
+    obtain ⟨⟨⟨hl0, hr1⟩, hlw⟩, hrw⟩ := h
+    obtain ⟨ihlE, _, _⟩ := ihl hlw
+    obtain ⟨_, ihrA, _⟩ := ihr hrw
+    have hA : ∀ fuel rest, 3 * size (.and l w r) ≤ fuel + 1 → NoAnd rest →
+        parseMarkerAnd sv fuel ((Ref.Pep508.Marker.and l w r).render ++ rest) =
+          .done (ret (toModel sv (.and l w r)) (skipWsp rest)) := by
+      intro fuel rest hf hna
+      obtain ⟨f, rfl⟩ : ∃ f, fuel = f + 1 := ⟨fuel - 1, by simp [size] at hf; omega⟩
+      have e : (Ref.Pep508.Marker.and l w r).render ++ rest =
+          l.render ++ (w.bytes ++ 97 :: 110 :: 100 :: (r.render ++ rest)) := by
+        simp [Ref.Pep508.Marker.render, List.append_assoc]
+      have hL := ihlE hl0 f (w.bytes ++ 97 :: 110 :: 100 :: (r.render ++ rest)) (by simp [size] at hf; omega)
+      have hR := ihrA hr1 f rest (by simp [size] at hf; omega) hna
+      have hsk : skipWsp (w.bytes ++ 97 :: 110 :: 100 :: (r.render ++ rest)) = 97 :: 110 :: 100 :: (r.render ++ rest) := by
+        rw [skipWsp_ws_append, skipWsp_cons _ (by decide)]
+      rw [and_step, e, hL]
+      simp only [toModel]
+      cases toModel sv l with
+      | ok L =>
+        simp only [ret, Outcome.bind, fbind_ok, hsk]
+        rw [show accept [97, 110, 100] (97 :: 110 :: 100 :: (r.render ++ rest)) = some (r.render ++ rest) from
+          accept_self [97, 110, 100] _]
+        simp only []
+        rw [hR]
+        cases toModel sv r <;> rfl
+      | err => rfl
+      | panic p => rfl
+    refine ⟨fun h0 => by simp [Ref.Pep508.Marker.level] at h0, fun _ => hA, derive_or _ hA⟩
+  | or l w r ihl ihr =>
+    intro h
+    simp only [Ref.Pep508.Marker.wf, Bool.and_eq_true, decide_eq_true_eq] at h
+    obtain ⟨⟨hl1, hlw⟩, hrw⟩ := h
+    obtain ⟨_, ihlA, _⟩ := ihl hlw
+    obtain ⟨_, _, ihrO⟩ := ihr hrw
+    refine ⟨fun h0 => by simp [Ref.Pep508.Marker.level] at h0, fun h1 => by simp [Ref.Pep508.Marker.level] at h1, ?_⟩
+    intro fuel rest hf hna hno
+    obtain ⟨f, rfl⟩ : ∃ f, fuel = f + 1 := ⟨fuel - 1, by simp [size] at hf; omega⟩
+    have e : (Ref.Pep508.Marker.or l w r).render ++ rest =
+        l.render ++ (w.bytes ++ 111 :: 114 :: (r.render ++ rest)) := by
+      simp [Ref.Pep508.Marker.render, List.append_assoc]
+    have hna' := noAnd_ws_cons w 111 (114 :: (r.render ++ rest)) (by decide) (by decide)
+    have hL := ihlA hl1 f (w.bytes ++ 111 :: 114 :: (r.render ++ rest)) (by simp [size] at hf; omega) hna'
+    have hR := ihrO f rest (by simp [size] at hf; omega) hna hno
+    have hsk : skipWsp (w.bytes ++ 111 :: 114 :: (r.render ++ rest)) = 111 :: 114 :: (r.render ++ rest) := by
+      rw [skipWsp_ws_append, skipWsp_cons _ (by decide)]
+    rw [or_step, e, hL, hsk]
+    simp only [toModel]
+    cases toModel sv l with
+    | ok L =>
+      simp only [ret, Outcome.bind, fbind_ok]
+      rw [skipWsp_cons _ (by decide : isWs 111 = false)]
+      rw [show accept [111, 114] (111 :: 114 :: (r.render ++ rest)) = some (r.render ++ rest) from
+        accept_self [111, 114] _]
+      simp only []
+      rw [hR]
+      cases toModel sv r <;> rfl
+    | err => rfl
+    | panic p => rfl
+
+end DepsDev.Proofs.C16MarkerRender
+
+namespace DepsDev.Proofs.C16MarkerRender
+open DepsDev DepsDev.Pypi DepsDev.Ref.Pep508 DepsDev.Proofs.C16Bytes DepsDev.Proofs.C16Marker
+
+theorem op_render_length (op : Op) (wNot : Ws) : 1 ≤ (op.render wNot).length := by
+  cases op <;> simp [Op.render, Op.text]
+
+theorem size_le_render : ∀ m : Ref.Pep508.Marker, size m ≤ m.render.length
+  | .cmp w0 l w1 op wNot w2 r => by
+    have := op_render_length op wNot
+    simp only [size, Ref.Pep508.Marker.render, List.length_append]; omega
+  | .paren w0 m w1 => by
+    have := size_le_render m
+    simp only [size, Ref.Pep508.Marker.render, List.length_append, List.length_cons, List.length_nil]; omega
+  | .and l w r => by
+    have := size_le_render l
+    have := size_le_render r
+    simp only [size, Ref.Pep508.Marker.render, List.length_append, List.length_cons, List.length_nil]; omega
+  | .or l w r => by
+    have := size_le_render l
+    have := size_le_render r
+    simp only [size, Ref.Pep508.Marker.render, List.length_append, List.length_cons, List.length_nil]; omega
+
+/-- `parseMarker` of any rendering of a well-formed marker tree (with any trailing blanks)
+is the tree `toModel` describes (including the leaf-check errors, in source order). -/
+theorem parseMarker_render (sv : Semver) (m : Ref.Pep508.Marker) (h : m.wf = true) (wT : Ws) :
+    parseMarker sv (m.render ++ wT.bytes) = toModel sv m := by
+  obtain ⟨hna, hno⟩ := noKw_ws wT
+  have hfuel : 3 * size m ≤ 3 * (m.render ++ wT.bytes).length + 3 := by
+    have := size_le_render m
+    simp only [List.length_append]; omega
+  have := (parse_render sv m h).2.2 _ wT.bytes hfuel hna hno
+  unfold parseMarker
+  rw [this, skipWsp_ws]
+  cases toModel sv m <;> rfl
+
+end DepsDev.Proofs.C16MarkerRender
